@@ -453,9 +453,37 @@ def default_delay(scan):
 
 
 # ---- TaskManager / RequestCache: the structure the scheduler model relies on --------------------------------------
-def _first_line(node, pred):
-    """line number of the first sub-node (in source order) satisfying pred, or None"""
-    hits = [n.lineno for n in ast.walk(node) if hasattr(n, "lineno") and pred(n)]
+_INLINE_CLASSES = []      # class nodes whose private helper methods may be inlined (set by task_manager_facts)
+
+
+def _inlined(node, depth=0, seen=()):
+    """(sub-node, position) pairs of `node`, with the bodies of private helper methods of the same class(es) that are called
+    as `self._helper(…)` inlined at their call site (position = line of the call in the outermost function).  A statement
+    sequence that was moved into a single-purpose helper is read as if it still stood where the helper is called."""
+    for n in ast.walk(node):
+        pos = getattr(n, "lineno", None)
+        yield n, pos
+        if depth < 3 and isinstance(n, ast.Call) and isinstance(n.func, ast.Attribute) and isinstance(n.func.value, ast.Name) \
+                and n.func.value.id == "self" and n.func.attr.startswith("_") and not n.func.attr.startswith("__") \
+                and n.func.attr not in seen:
+            for cls in _INLINE_CLASSES:
+                helper = _method(cls, n.func.attr)
+                if helper is not None:
+                    for m, _ in _inlined(helper, depth + 1, (*seen, n.func.attr)):
+                        yield m, n.lineno
+                    break
+
+
+def _walk_inlined(node):
+    return [n for n, _ in _inlined(node)]
+
+
+def _first_line(node, pred, inline=True):
+    """position of the first sub-node satisfying pred (helpers inlined at their call site unless inline=False), or None"""
+    if inline:
+        hits = [pos for n, pos in _inlined(node) if pos is not None and pred(n)]
+    else:
+        hits = [n.lineno for n in ast.walk(node) if hasattr(n, "lineno") and pred(n)]
     return min(hits) if hits else None
 
 
@@ -469,6 +497,8 @@ def task_manager_facts(scan):
     if "TaskManager" not in scan or "RequestCache" not in scan:
         raise TranslatorError("TaskManager / RequestCache not found")
     tm, rc = scan["TaskManager"][2], scan["RequestCache"][2]
+    del _INLINE_CLASSES[:]
+    _INLINE_CLASSES.extend([rc, tm])
     facts = {}
     reg = _method(tm, "register_task")
     if reg is None:
@@ -477,20 +507,21 @@ def task_manager_facts(scan):
         isinstance(t, ast.Subscript) and _is_self_attr(t.value, "_pending_tasks") for t in n.targets))
     if store is None:
         raise TranslatorError("register_task: no `self._pending_tasks[name] = …`")
-    g_down = _first_line(reg, lambda n: _tests_shutdown(n) and any(isinstance(x, ast.Return) for x in ast.walk(n)))
+    g_down = _first_line(reg, lambda n: _tests_shutdown(n) and any(isinstance(x, ast.Return) for x in ast.walk(n)),
+                         inline=False)
     g_act = _first_line(reg, lambda n: isinstance(n, ast.If) and "is_pending_task_active" in _src(n.test)
                         and any(isinstance(x, ast.Raise) for x in n.body))
     facts["registerRefusesWhenShutdown"] = g_down is not None and g_down < store
     facts["registerRaisesWhenActive"] = g_act is not None and g_act < store
     facts["registerChecksShutdownFirst"] = g_down is not None and g_act is not None and g_down < g_act
-    done_cb = next((n for n in ast.walk(reg) if isinstance(n, ast.FunctionDef) and n.name == "done_cb"), None)
+    done_cb = next((n for n in _walk_inlined(reg) if isinstance(n, ast.FunctionDef) and n.name == "done_cb"), None)
     facts["doneCallbackUntracksOnlyItself"] = done_cb is not None and any(
         isinstance(n, ast.If) and isinstance(n.test, ast.Compare) and isinstance(n.test.ops[0], ast.Is)
         and "_pending_tasks" in _src(n.test) and any("_pending_tasks.pop" in _src(b) for b in n.body)
         for n in ast.walk(done_cb))
     facts["periodicRunnerGetsStopCheck"] = any(
         isinstance(n, ast.Call) and isinstance(n.func, ast.Name) and n.func.id == "interval_runner"
-        and any(k.arg == "stop" and "_shutdown" in _src(k.value) for k in n.keywords) for n in ast.walk(reg))
+        and any(k.arg == "stop" and "_shutdown" in _src(k.value) for k in n.keywords) for n in _walk_inlined(reg))
     act = _method(tm, "is_pending_task_active")
     rets = [n for n in ast.walk(act)] if act is not None else []
     rets = [n for n in rets if isinstance(n, ast.Return) and n.value is not None]
@@ -501,11 +532,11 @@ def task_manager_facts(scan):
     facts["cancelUntracksAtOnce"] = canc is not None and any(
         isinstance(n, ast.If) and "not pending_task.done()" in _src(n.test)
         and any(".cancel()" in _src(b) for b in n.body) and any("_pending_tasks.pop" in _src(b) for b in n.body)
-        for n in ast.walk(canc))
+        for n in _walk_inlined(canc))
     call = _method(tm, "cancel_all_pending_tasks")
     facts["cancelAllCoversEveryTrackedName"] = call is not None and any(
         isinstance(n, ast.ListComp) and "cancel_pending_task" in _src(n.elt) and len(n.generators) == 1
-        and not n.generators[0].ifs and "_pending_tasks" in _src(n.generators[0].iter) for n in ast.walk(call))
+        and not n.generators[0].ifs and "_pending_tasks" in _src(n.generators[0].iter) for n in _walk_inlined(call))
     rep = _method(tm, "replace_task")
     if rep is None:
         raise TranslatorError("TaskManager.replace_task not found")
@@ -523,16 +554,17 @@ def task_manager_facts(scan):
             raise TranslatorError(f"{prefix}: shutdown method not found")
         flag = _first_line(fn, lambda n: isinstance(n, ast.Assign) and _src(n).replace(" ", "") == "self._shutdown=True")
         cancel = _first_line(fn, lambda n: isinstance(n, ast.Call) and _is_self_attr(n.func, "cancel_all_pending_tasks"))
-        waits = [n for n in ast.walk(fn) if isinstance(n, ast.Await) and isinstance(n.value, ast.Call)
+        waits = [(n, pos) for n, pos in _inlined(fn) if isinstance(n, ast.Await) and isinstance(n.value, ast.Call)
                  and isinstance(n.value.func, ast.Name) and n.value.func.id == "gather"]
         facts[prefix + "SetsFlagBeforeCancelling"] = flag is not None and cancel is not None and flag <= cancel
         facts[prefix + "WaitsForAllCancelledTasks"] = bool(waits) and all(
             any(k.arg == "return_exceptions" and isinstance(k.value, ast.Constant) and k.value.value is True
-                for k in w.value.keywords) for w in waits) and (cancel is not None and waits[0].lineno > cancel)
+                for k in w.value.keywords) for w, _ in waits) and (cancel is not None and min(p for _, p in waits) >= cancel)
         filt = _first_line(fn, lambda n: isinstance(n, ast.ListComp) and " is not " in _src(n) and n.generators
                            and n.generators[0].ifs)
-        facts[prefix + "DoesNotWaitForItsCaller"] = "current_task()" in _src(fn) and filt is not None \
-            and all(filt < w.lineno for w in waits)
+        uses_current = any(isinstance(n, ast.Call) and isinstance(n.func, ast.Name) and n.func.id == "current_task"
+                           for n in _walk_inlined(fn))
+        facts[prefix + "DoesNotWaitForItsCaller"] = uses_current and filt is not None and all(filt <= p for _, p in waits)
 
     shutdown_facts(_method(tm, "shutdown_task_manager"), "shutdown")
     shutdown_facts(_method(rc, "shutdown"), "cacheShutdown")
@@ -542,7 +574,8 @@ def task_manager_facts(scan):
     store = _first_line(add, lambda n: isinstance(n, ast.Assign) and any(
         isinstance(t, ast.Subscript) and _is_self_attr(t.value, "_identifiers") for t in n.targets))
     g = _first_line(add, lambda n: _tests_shutdown(n) and any(
-        isinstance(x, ast.Return) and isinstance(x.value, ast.Constant) and x.value.value is None for x in ast.walk(n)))
+        isinstance(x, ast.Return) and isinstance(x.value, ast.Constant) and x.value.value is None for x in ast.walk(n)),
+        inline=False)
     facts["cacheAddRefusesWhenShutdown"] = g is not None and store is not None and g < store
     # the periodic runner itself
     runner = None
